@@ -232,7 +232,16 @@ def run_case(ctx, case):
         second = ri >= 1 and "mins2" in info
         for m, target, amt, restr in (info["mins2"] if second else info["mins"]):
             n, si = d.get("equi:%s" % m), d.get("si:%s" % m)
-            if n is None or si is None or si < -99:
+            if n is None or si is None:
+                continue
+            if si < -99:
+                # SI undefined = an element of the mineral is not in the system.  Admissible for a mineral that is not there (or may only precipitate);
+                # a mineral that is there must have supplied its elements (the engine pre-dissolves a trace of it for that purpose)
+                if n > 0 and restr != "precipitate_only":
+                    nchk += 1
+                    findings.append(("C03/complementarity/present/undefined-si", "%s (target %g, initial %g mol%s) in %s%s: %.10g mol present but its saturation index is undefined (%.2f): "
+                                     "the mineral was left out of the equilibrium although it holds the only source of one of its elements" % (
+                                         m, target, amt, (", " + restr) if restr else "", case["id"], " (second step)" if second else "", n, si)))
                 continue
             nchk += 1
             present = n > 0
